@@ -75,12 +75,12 @@ pub fn budget(prop: &str, tier: &str) -> Budget {
         "C07" => (3000, 90_000),
         "C12" => (3000, 90_000),
         "C13" => (3000, 90_000),
-        "C04" => (400, 6_000),
+        "C04" => (600, 8_000),
         "C08" => (4000, 120_000),
         "C09" => (4000, 120_000),
         "C10" => (4000, 120_000),
         "C15" => (400, 8_000),
-        "C18" => (300, 5_000),
+        "C18" => (1500, 30_000),
         _ => (100, 1000),
     };
     let scale = std::env::var("VERIF_RUNS_SCALE")
@@ -118,6 +118,8 @@ fn rule_of(prop: &str) -> &'static str {
         "C07" => "one run = one seeded history over {INSERT batch, DELETE WHERE p, advance clock past the 1 s compactor timer, reopen} with row-set sizes forcing several row-sets and partial compactions; after every step every table is compared with the model, DELETE counts are checked, results before/after each pass are compared, sorted storage scans are checked; non-trivial = a DELETE ran on a table with >=2 row-sets or after a compaction; distinct = distinct (knobs, statement list)",
         "C12" => "one run = one seeded layout history (several INSERTs => several row-sets, DELETEs, compaction passes, reopen) with ORDER BY / LIMIT / OFFSET queries at query points; each query is checked against the engine's own unordered result (sortedness on K, permutation, slice m..m+n, unordered LIMIT count + containment); non-trivial = queried table had >=2 row-sets or a DV at a query point; distinct = distinct (knobs, statement list)",
         "C13" => "one run = one seeded layout history on tables with a primary key at any column position, tiny blocks, with key-range queries (=,<,<=,>,>=, two-sided, residual predicates, projections) at query points; each is compared with the same query under PRAGMA disable_optimizer, with the model, and at storage level scan(range) vs scan()+filter; non-trivial = queried table had >=2 row-sets or a DV; distinct = distinct (knobs, statement list)",
+        "C04" => "one run = one seeded single-session history (3-8 statements + clock advances) executed once with every mutating syscall journalled, then crash images derived from the journal: quick samples crash indexes (all indexes near a manifest write, 25 % of the others), torn lengths {1, n/2, n-1} of the write in flight, both durability models (prefix / lost un-synced tails), and one-level crash during recovery; thorough enumerates every index, every byte of manifest writes. evaluations = crash images recovered and checked (+ post-recovery probe statements); non-trivial = image taken inside a statement; distinct = distinct (knobs, history)",
+        "C18" => "one run = one seeded database (1-3 tables, several row-sets, DVs, possibly compacted; CRC32 checksums as default_for_cli) whose .col/.idx files are then corrupted one fault at a time: bit flip / byte overwrite / zero-filled sector / truncation at first, last, middle, the last 12 bytes (block trailer, index footer) and seeded positions x read order {corrupt then open; open, cache all blocks, corrupt; open, corrupt before any read} x optional compaction pass over the damaged data; every table is then read three times. evaluations = queries issued against corrupted databases; non-trivial = at least one corruption applied; distinct = distinct (knobs, history)",
         _ => "see DESIGN.md",
     }
 }
@@ -356,6 +358,14 @@ pub fn check(prop: &str, tier: &str) -> i32 {
         }
         // minimise the first unknown instance, then re-classify the minimised form
         let (case, res, v) = &***unknown.iter().min_by_key(|g| g.0.steps.len() + g.0.sessions.iter().map(|s| s.len()).sum::<usize>()).unwrap();
+        let pinned_case;
+        let case = match &v.pinned {
+            Some(p) => {
+                pinned_case = (**p).clone();
+                &pinned_case
+            }
+            None => case,
+        };
         let (mcase, mres) = crate::minimize::minimise(case, res, sig, workers(), 600);
         let mv = mres
             .violations
